@@ -181,3 +181,227 @@ class SanitizeArcname(Contract):
             pass
 
         return {}
+
+
+# ------------------------------------------------------------------------------------------------ C03: lexical containment
+def parts_of(c, p):
+    """parts of a pathlib path value (symbolic: heap cell; concrete: real PurePath)"""
+    if getattr(c, "concrete", False):
+        return list(p.parts)
+    return c.eng.heap[p.id]["parts"]
+
+
+def mk_path(c, name, absolute=None):
+    from pyvc.builtins_model import new_path
+
+    parts = c.eng.fresh_seq(name + ".parts", "str", "tuple")
+    p = new_path(c.eng, parts, parsed=True)
+    if absolute is True:
+        c.assume(c.eng.heap[p.id]["absolute"])
+    return p
+
+
+def no_dotdot(parts, frm=0):
+    return ForAll(lambda k: Not(eq(nth(parts, k), "..")), guard=lambda k: And(k >= frm, k < L(parts)), over=parts if V.is_sym(parts) else None, n=L(parts))
+
+
+def nodd(c, parts):
+    """NODD(parts): no component is '..' (uninterpreted predicate + its two defining facts, instantiated on demand)"""
+    if not V.is_sym(parts):
+        return all(p != ".." for p in parts)
+    eng = c.eng
+    r = SBool(V.uf("no_dotdot", V.seq_sort("str"), z3.BoolSort())(parts.t))
+    key = ("nodd", parts.t.get_id())
+    if key not in eng._inst_seen:
+        eng._inst_seen.add(key)
+        eng._keep.append(parts)
+        eng.register_forall(ForAll(lambda k: Not(eq(nth(parts, k), "..")), guard=lambda k: And(r, k >= 0, k < L(parts)), over=parts))
+        w = SInt(V.uf("dotdot_witness", V.seq_sort("str"), z3.IntSort())(parts.t))
+        eng.assume(Implies(Not(r), And(w >= 0, w < L(parts), eq(nth(parts, w), ".."))))
+        eng.add_index_term(w)
+    return r
+
+
+@contract
+class CanonicalPath(Contract):
+    """for an absolute path the result is absolute and contains no '..' component (so lexical prefix tests mean containment)"""
+
+    target = H + "canonical_path"
+    props = ("C03", "C16")
+    model_pathlib = True
+    replayable = False
+    assumptions = ("pathlib (PurePosixPath): parts / is_absolute / joinpath / relative_to / Path(*parts) as documented; roots only at index 0",)
+
+    def setup(self, c):
+        return {"target": mk_path(c, "target")}
+
+    def fresh_result(self, c, target):
+        return mk_path(c, "canonical")
+
+    def ensures(self, c, old, result, target):
+        tp = parts_of(c, target)
+        rp = parts_of(c, result)
+        # single-slash root; for the POSIX '//' anchor canonical_path may pop the anchor itself ('//a/../..' -> '.'),
+        # which only makes the later containment test fail (safe direction) - see DESIGN.md
+        isabs = And(L(tp) >= 1, eq(nth(tp, 0), "/"))
+        return [
+            ("absolute-stays-absolute", Implies(isabs, And(L(rp) >= 1, eq(nth(rp, 0), nth(tp, 0))))),
+            ("absolute-result-has-no-dotdot", ForAll(lambda k: Not(eq(nth(rp, k), "..")), guard=lambda k: And(isabs, k >= 0, k < L(rp)), over=rp)),
+            ("never-longer-than-the-input", L(rp) <= L(tp)),
+            ("identity-on-paths-without-dotdot", Implies(nodd(c, tp), eq(rp, tp))),
+            ("a-root-in-front-is-the-inputs-root", Implies(And(L(rp) >= 1, Or(eq(nth(rp, 0), "/"), eq(nth(rp, 0), "//"))), And(L(tp) >= 1, eq(nth(rp, 0), nth(tp, 0))))),
+        ]
+
+    def loops(self):
+        def inv(c, Lp):
+            tp = parts_of(c, c.bound["target"])
+            st = Lp.local("stack")
+            i = Lp.i
+            isabs = And(L(tp) >= 1, eq(nth(tp, 0), "/"))
+            return [
+                ("length", And(L(st) <= i, Implies(And(isabs, i >= 1), L(st) >= 1))),
+                ("root-kept", Implies(And(isabs, i >= 1), eq(nth(st, 0), nth(tp, 0)))),
+                ("no-dotdot-when-absolute", ForAll(lambda k: Not(eq(nth(st, k), "..")), guard=lambda k: And(isabs, k >= 0, k < L(st)), over=st)),
+                ("no-inner-root", ForAll(lambda k: Not(Or(eq(nth(st, k), "/"), eq(nth(st, k), "//"))), guard=lambda k: And(k >= 1, k < L(st)), over=st)),
+                ("copied-so-far-without-dotdot", Implies(nodd(c, tp), eq(st, slice_(tp, 0, i)))),
+                ("front-root-comes-from-the-input", Implies(And(L(st) >= 1, Or(eq(nth(st, 0), "/"), eq(nth(st, 0), "//"))), And(L(tp) >= 1, eq(nth(st, 0), nth(tp, 0))))),
+            ]
+
+        return {"helpers:canonical_path#loop0": LoopSpec("for-p", inv, cells={"stack": "str"})}  # anchored by the local `stack` and the loop index only
+
+
+def _canon_results(c):
+    return [e.result for e in c.eng.trace if e.kind == "contract-call" and e.name.endswith("canonical_path")]
+
+
+def prefix(a, b):
+    """a is a (lexical) prefix of b"""
+    if not V.is_sym(a) and not V.is_sym(b):
+        return list(b[: len(a)]) == list(a)
+    import z3 as _z
+
+    return SBool(_z.PrefixOf(V.to_seq(a, elem="str").t, V.to_seq(b, elem="str").t))
+
+
+@contract
+class IsRelativeTo(Contract):
+    """True exactly when the canonical form of `other` is a lexical prefix of `my`"""
+
+    target = H + "is_relative_to"
+    props = ("C03", "C16")
+    model_pathlib = True
+    replayable = False
+
+    def setup(self, c):
+        return {"my": mk_path(c, "my"), "other": (mk_path(c, "other"),)}
+
+    def call_args(self, b):
+        return [b["my"]] + list(b["other"]), {}
+
+    def bind(self, ctx, args, kwargs):
+        return {"my": args[0], "other": tuple(args[1:])}
+
+    def fresh_result(self, c, my, other):
+        return c.bool("relative")
+
+    def ensures(self, c, old, result, my, other):
+        eng = c.eng
+        if eng.ctx_mode == "assume":
+            base = mk_path(c, "canon_other")
+            for item in CanonicalPath().ensures(c, old, base, other[0]):
+                eng.assume_item(item[1])
+            eng.ghost["last_base"] = base
+        else:
+            rs = _canon_results(c)
+            base = rs[-1] if rs else None
+        if base is None:
+            return [("canonicalises-the-base", False)]
+        return [("true-iff-canonical-base-is-a-prefix", result == prefix(parts_of(c, base), parts_of(c, my)))]
+
+
+@contract
+class IsPathValid(Contract):
+    """True exactly when the canonical target lies lexically inside the canonical parent
+    (a relative parent is taken relative to the current directory)"""
+
+    target = H + "is_path_valid"
+    props = ("C03",)
+    model_pathlib = True
+    replayable = False
+
+    def setup(self, c):
+        return {"target": mk_path(c, "target"), "parent": mk_path(c, "parent")}
+
+    def fresh_result(self, c, target, parent):
+        return c.bool("valid")
+
+    def ensures(self, c, old, result, target, parent):
+        eng = c.eng
+        if eng.ctx_mode == "assume":
+            return []
+        calls = [e for e in eng.trace if e.kind == "contract-call" and e.name.endswith("is_relative_to")]
+        canon = [e for e in eng.trace if e.kind == "contract-call" and e.name.endswith("canonical_path")]
+        ok = len(calls) == 1 and len(canon) == 1
+        out = [("one-containment-test", bool(ok))]
+        if ok:
+            e = calls[0]
+            pabs = eng.heap[parent.id]["absolute"]
+            base = e.args[1]
+            bp = parts_of(c, base)
+            pp = parts_of(c, parent)
+            cwd = eng.ghost.get("cwd")
+            out.append(("tests-the-canonical-target", bool(e.args[0] is canon[0].result and canon[0].args[0] is target)))
+            out.append(("against-the-parent-itself-when-absolute", Implies(pabs, eq(bp, pp))))
+            if cwd is not None:
+                out.append(("against-cwd-joined-with-a-relative-parent", Implies(Not(pabs), eq(bp, V.SSeq(__import__("z3").Concat(parts_of(c, cwd).t, pp.t), "str", "tuple")))))
+            else:
+                out.append(("against-cwd-joined-with-a-relative-parent", Implies(Not(pabs), False)))
+            out.append(("verdict-is-that-test", result == e.result))
+        return out
+
+
+@contract
+class GetSanitizedOutputPath(Contract):
+    """returns a path only if it is lexically inside the (canonical) destination and free of '..'; else Bad7zFile"""
+
+    target = H + "get_sanitized_output_path"
+    props = ("C03",)
+    model_pathlib = True
+    replayable = False
+    inline = ("helpers:remove_relative_path_marker",)
+
+    def setup(self, c):
+        if c.choice(2) == 0:
+            return {"fname": c.str("fname"), "path": None}
+        return {"fname": c.str("fname"), "path": mk_path(c, "path", absolute=True)}
+
+    def raises(self):
+        return [RaiseSpec("Bad7zFile")]
+
+    def fresh_result(self, c, fname, path):
+        return mk_path(c, "outpath")
+
+    def ensures(self, c, old, result, fname, path):
+        eng = c.eng
+        rp = parts_of(c, result)
+        if path is None:
+            # no destination given: the result is taken relative to the current directory - never absolute, no '..'
+            return [
+                ("relative-when-no-destination", Not(And(L(rp) >= 1, Or(eq(nth(rp, 0), "/"), eq(nth(rp, 0), "//"))))),
+                ("no-dotdot-left", ForAll(lambda k: Not(eq(nth(rp, k), "..")), guard=lambda k: And(k >= 0, k < L(rp)), over=rp)),
+            ]
+        if eng.ctx_mode == "assume":
+            base = mk_path(c, "canon_dest")
+            for item in CanonicalPath().ensures(c, old, base, path):
+                eng.assume_item(item[1])
+        else:
+            rel = [e for e in eng.trace if e.kind == "contract-call" and e.name.endswith("is_relative_to")]
+            base = eng.ghost.get("last_base")
+            if not rel or base is None:
+                return [("containment-tested", False)]
+        bp = parts_of(c, base)
+        pp = parts_of(c, path)
+        return [
+            ("inside-the-canonical-destination", prefix(bp, rp)),
+            ("no-dotdot-left", ForAll(lambda k: Not(eq(nth(rp, k), "..")), guard=lambda k: And(eq(nth(pp, 0), "/"), k >= 0, k < L(rp)), over=rp)),
+        ]
